@@ -43,6 +43,19 @@ CLAIMED = {
         "property-based testing (Hypothesis) against a plain-data reference model + bounded-exhaustive tie shapes",
         "3/C12",
     ),
+    "C02": (
+        "Every recorded round of generated STV / IRV / SequentialRCV counts (partial ballots, rational weights, "
+        "zero-vote candidates, tie-rich profiles; both quotas, both modes, all tiebreak settings; every random "
+        "choice scripted or seeded) is judged by an independent exact-rational reference step model written from "
+        "the statement: threshold, who may be elected / eliminated, elimination ties by initial tally, transfer "
+        "weights, resulting tallies and order; partial records are judged too when the constructor raises, and a "
+        "ValueError is accepted only at a model-confirmed one-by-one tie with tiebreak=None.  Thorough enumerates "
+        "all profiles of <= 3 distinct rankings over 3 candidates with weights 1..3 x 12 configurations.",
+        "Trusts vk/ref/stv.py; elected sets compared as sets; rounds where quota-reachers outnumber seats and "
+        "Hare quota 0 are attributed to known findings F10a/F10b (input predicate + model-confirmed state).",
+        "property-based testing (Hypothesis, scripted randomness) against a reference step model + bounded-exhaustive small profiles",
+        "3/C02",
+    ),
 }
 
 PENDING_REASON = "check not built yet in this session; the design (DESIGN.md section 3) claims it and it will be registered once it is quiet on the unchanged tree and catches its mutants"
